@@ -6,7 +6,7 @@ os.environ['PYTHONPATH'] = '/repo:/verif'
 from harness import lib
 subprocess.run(['git','-C','/repo','worktree','remove','--force',WT],capture_output=True)
 subprocess.run(['git','-C','/repo','worktree','add','-q','--detach',WT],check=True)
-files = {"C01":"topology.py","C02":"channels.py","C03":"channels.py","C12":"channels.py","C16":"for_loop.py","C15":"workflow.py","C18":"injection.py","C05":"node.py","C10":"node.py","C19":"storage.py","C17":"function.py","C08":"node.py"}
+files = {"C01":"topology.py","C02":"channels.py","C03":"channels.py","C12":"channels.py","C16":"for_loop.py","C15":"workflow.py","C18":"injection.py","C05":"node.py","C10":"node.py","C19":"storage.py","C17":"function.py","C08":"node.py","C11":"topology.py"}
 res = {}
 try:
     for d in sorted(glob.glob('/verif/seeded/refactors/*.diff')):
